@@ -132,6 +132,75 @@ static void c09_pixels(const unsigned char *data, size_t n, int mode, int kind, 
   jpeg_destroy_decompress(&d); free(s.buf); free(row); if (f) fclose(f);
 }
 
+/* msusp <seed> <icclen> <nm> (<code> <len>)*nm : (C16) a small JPEG with JFIF density, an ICC profile and the given marker segments is
+ * written, then its header is read (a) from memory and (b) through the suspending source with the input cut after every single byte
+ * position of the header (one cut per run), byte by byte, and in seeded chunks.  Saved markers, ICC profile and the JFIF fields must
+ * not depend on where the input was cut. */
+typedef struct { unsigned long long mark, icc; unsigned iccn; int jfif, du, xd, yd, adobe, ok, err, warn; } c16_hdr;
+static void c16_read(const unsigned char *data, size_t n, int mode, int kind, unsigned long long seed, size_t split, c16_hdr *r)
+{
+  struct jpeg_decompress_struct d; my_err_t e; c09_src s; JOCTET *icc = NULL; unsigned int iccn = 0; int m;
+  memset(r, 0, sizeof(*r)); memset(&s, 0, sizeof(s));
+  d.err = my_err_init(&e);
+  jpeg_create_decompress(&d);
+  if (setjmp(e.jb)) { r->err = e.code; jpeg_destroy_decompress(&d); free(s.buf); return; }
+  if (mode == 0) jpeg_mem_src(&d, data, n); else c09_setup(&d, &s, data, n, kind, seed, split);
+  jpeg_save_markers(&d, JPEG_COM, 0xFFFF);
+  for (m = 0; m < 16; m++) jpeg_save_markers(&d, JPEG_APP0 + m, 0xFFFF);
+  while (jpeg_read_header(&d, TRUE) == JPEG_SUSPENDED) { if (mode != 1 || !c09_feed(&s)) { r->err = -9; jpeg_destroy_decompress(&d); free(s.buf); return; } }
+  r->mark = c09_markers(&d);
+  if (jpeg_read_icc_profile(&d, &icc, &iccn)) { unsigned i; unsigned long long h = 14695981039346656037ULL; for (i = 0; i < iccn; i++) { h ^= icc[i]; h *= 1099511628211ULL; } r->icc = h; r->iccn = iccn; free(icc); }
+  r->jfif = d.saw_JFIF_marker; r->du = d.density_unit; r->xd = d.X_density; r->yd = d.Y_density; r->adobe = d.saw_Adobe_marker;
+  r->warn = (int)e.nwarn; r->ok = 1;
+  jpeg_destroy_decompress(&d); free(s.buf);
+}
+static int c16_hdr_same(const c16_hdr *a, const c16_hdr *b)
+{
+  return a->ok == b->ok && a->err == b->err && a->mark == b->mark && a->icc == b->icc && a->iccn == b->iccn && a->jfif == b->jfif && a->du == b->du &&
+         a->xd == b->xd && a->yd == b->yd && a->adobe == b->adobe && a->warn == b->warn;
+}
+static int c16_msusp(toks_t *t)
+{
+  unsigned long long seed = (unsigned long long)tll(t, 1); int icclen = (int)tl(t, 2), nm = (int)tl(t, 3), i, y; size_t hdr = 0, p, j;
+  struct jpeg_compress_struct c; my_err_t e; unsigned char *out = NULL, *buf; unsigned long outsize = 0; c16_hdr ref, got; char why[200] = "";
+  c.err = my_err_init(&e);
+  jpeg_create_compress(&c);
+  if (setjmp(e.jb)) { printf("R err %d\n", e.code); jpeg_destroy_compress(&c); free(out); return 1; }
+  jpeg_mem_dest(&c, &out, &outsize);
+  c.image_width = 8; c.image_height = 8; c.input_components = 1; c.in_color_space = JCS_GRAYSCALE;
+  jpeg_set_defaults(&c);
+  c.density_unit = (UINT8)(1 + seed % 2); c.X_density = (UINT16)(72 + seed % 500); c.Y_density = (UINT16)(30 + (seed >> 9) % 300);
+  jpeg_start_compress(&c, TRUE);
+  buf = (unsigned char *)malloc(70000);
+  if (icclen > 0) { for (j = 0; j < (size_t)icclen; j++) buf[j] = (unsigned char)c03_mix(seed + j); jpeg_write_icc_profile(&c, buf, (unsigned int)icclen); }
+  for (i = 0; i < nm; i++) {
+    int code = (int)tl(t, 4 + i * 2); size_t len = (size_t)tl(t, 5 + i * 2);
+    for (j = 0; j < len; j++) buf[j] = (unsigned char)c03_mix(seed * 31ULL + (unsigned long long)i * 7919ULL + j);
+    jpeg_write_marker(&c, code, buf, (unsigned int)len);
+  }
+  free(buf);
+  { unsigned char row[8] = { 0, 32, 64, 96, 128, 160, 192, 224 }; JSAMPROW rp = row; for (y = 0; y < 8; y++) jpeg_write_scanlines(&c, &rp, 1); }
+  jpeg_finish_compress(&c);
+  jpeg_destroy_compress(&c);
+  for (p = 2; p + 3 < outsize; ) { if (out[p] == 0xFF && out[p + 1] == 0xDA) { hdr = p; break; } p += 2 + (((size_t)out[p + 2] << 8) | out[p + 3]); }
+  c16_read(out, outsize, 0, 0, 0, 0, &ref);
+  printf("R hdr %zu markers %llu icc %u jfif %d %d %d %d warn %d\n", hdr, ref.mark, ref.iccn, ref.jfif, ref.du, ref.xd, ref.yd, ref.warn);
+  if (!ref.ok) { printf("O fail msusp: own header not readable from memory (error %d)\n", ref.err); free(out); return 1; }
+  /* one cut at every byte position of the header (at most 6000 of them, then every 7th) */
+  for (p = 1; p < hdr + 4 && !why[0]; p += (p < 6000 ? 1 : 7)) {
+    c16_read(out, outsize, 1, 0, 0, p, &got);
+    if (!c16_hdr_same(&ref, &got)) snprintf(why, sizeof(why), "input cut after byte %zu: markers %llu icc %u jfif %d density %d/%dx%d warnings %d error %d", p, got.mark, got.iccn, got.jfif, got.du, got.xd, got.yd, got.warn, got.err);
+  }
+  for (i = 1; i <= 3 && !why[0]; i++) {
+    c16_read(out, outsize, 1, i, seed + (unsigned long long)i, 0, &got);
+    if (!c16_hdr_same(&ref, &got)) snprintf(why, sizeof(why), "chunking kind %d: markers %llu icc %u jfif %d density %d/%dx%d warnings %d error %d", i, got.mark, got.iccn, got.jfif, got.du, got.xd, got.yd, got.warn, got.err);
+  }
+  if (why[0]) printf("O fail msusp: header read through a suspending source differs from the read from memory (markers %llu icc %u jfif %d density %d/%dx%d): %s\n", ref.mark, ref.iccn, ref.jfif, ref.du, ref.xd, ref.yd, why);
+  else printf("O ok\n");
+  free(out);
+  return 1;
+}
+
 static int c09_same(const c09_res *a, const c09_res *b) { return a->ok == b->ok && a->err == b->err && a->pix == b->pix && a->mark == b->mark && a->w == b->w && a->h == b->h && a->warn == b->warn; }
 
 /* coefficient path under a suspending source; prints the t81 line */
@@ -301,6 +370,7 @@ static int c09_suspenc(toks_t *t)
 
 static int dispatch_c09(toks_t *t)
 {
+  if (!strcmp(t->tok[0], "msusp") && t->n >= 4) return c16_msusp(t);
   if (!strcmp(t->tok[0], "susp") && t->n >= 4) return c09_susp(t);
   if (!strcmp(t->tok[0], "suspall") && t->n >= 3) return c09_suspall(t);
   if (!strcmp(t->tok[0], "bufimg") && t->n >= 4) return c09_bufimg(t);
